@@ -115,7 +115,7 @@ def gen_mc(rng, tier, scale):
                 m = abs(m)
             if r > 0.97:
                 m = F(0)                                     # ZeroDivisionError branch
-            kind = rng.choice(["any", "any", "zero", "mult", "neg", "small", "tiny", "big"])
+            kind = rng.choice(["any", "any", "zero", "mult", "neg", "small", "small", "tiny", "big"])
             def step_val():
                 if kind == "zero":
                     return F(0)
@@ -1131,11 +1131,29 @@ def gen_res(rng, tier, scale):
             zero = {"v": enc(rng.choice([F(0), F(0), dyadic(rng)])), "t": "F"}
             if zero["v"] == 0 and rng.random() < 0.5:
                 zero["t"] = "i"
-            mk = lambda: F(rng.randint(0, 24), rng.choice([1, 2, 3, 4, 5, 6, 7, 8, 12]))
+            def mk():
+                d = rng.choice([1, 2, 3, 4, 5, 6, 7, 8, 12])
+                r2 = rng.random()
+                if r2 < 0.45:
+                    return F(rng.randint(1, d), d) if d > 1 else F(1, rng.randint(2, 5))   # upsampling
+                if r2 < 0.55:
+                    return F(1)
+                if r2 < 0.6:
+                    return F(0)
+                return F(rng.randint(d, 4 * d), d)                                        # downsampling
         else:
             sts = [typ_for(x, rng) for x in sig]
             zero = {"v": enc(rng.choice([F(0), F(0), dyadic(rng)])), "t": "f"}
-            mk = lambda: F(rng.randint(0, 48), rng.choice([1, 2, 4, 8, 16]))
+            def mk():
+                d = rng.choice([2, 4, 8, 16])
+                r2 = rng.random()
+                if r2 < 0.45:
+                    return F(rng.randint(1, d), d)
+                if r2 < 0.55:
+                    return F(1)
+                if r2 < 0.6:
+                    return F(0)
+                return F(rng.randint(d, 4 * d), d)
         c = {"entry": "resample", "sig": [enc(x) for x in sig], "sts": sts, "order": order, "zero": zero,
              "n": n, "exact": exact, "sig_kind": rng.choice(["list", "iter", "Stream", "tuple"])}
         if rng.random() < 0.25:
@@ -1143,8 +1161,6 @@ def gen_res(rng, tier, scale):
             c["steps"] = [enc(x) for x in steps]          # old = Stream(steps), new = 1
         else:
             st = mk()
-            while st == 0 and rng.random() < 0.8:
-                st = mk()
             if exact:
                 new = F(rng.randint(1, 9), rng.choice([1, 2, 3]))
                 c["old"] = {"v": enc(st * new), "t": "F"}
@@ -1310,6 +1326,16 @@ ENTRIES = {
 for _alias, _of in (("table_getitem", "table_call"), ("fadein", "line"), ("fadeout", "line"), ("zeros", "ones"), ("zeroes", "ones"),
                     ("impulse", "ones"), ("attack", "adsr"), ("gauss_noise", "white_noise")):
     ENTRIES[_alias] = dict(ENTRIES[_of], gen=None)
+
+
+def extra_checks(eng):
+    """facts the generators rely on"""
+    yield ("magic-cycles", C0 * 2 * math.pi == 1.0 and (C0 * 8) * 2 * math.pi == 8.0,
+           "1/(2*pi) * 2 * pi is not exactly 1.0 on this platform: the exact regime of TableLookup is void")
+    f = exact_freq_for(4.25)
+    yield ("exact-delay", f is not None and 2 * math.pi / f == 4.25, "no float freq with 2*pi/freq == 4.25")
+    import audiolazy
+    yield ("aliases", audiolazy.zeroes is audiolazy.zeros, "zeroes is not zeros")
 
 
 def generate(rng, tier, scale=1):
